@@ -139,7 +139,7 @@ def rule_p2(chk: Check, ix: Index, ir):
         var = norm_stmt(loops[0].target)
         why = ""
         try:
-            for pth in stmt_paths(loops[0].body):
+            for pth in stmt_paths(loops[0].body, split_bool=True):
                 eff = [x[1] for x in pth if x[0] == "do"]
                 conds = [(x[1], x[2]) for x in pth if x[0] == "cond"]
                 appends = [e for e in eff if "_append_node_or_token(" in e]
